@@ -5,7 +5,11 @@ package impl
 import (
 	"encoding/binary"
 	"math/bits"
+
+	"github.com/bronlabs/bron-crypto/pkg/base/ct"
 )
+
+func ctChoice(c uint64) ct.Choice { return ct.Choice(c) }
 
 // E1 harnesses for pkg/base/curves/edwards25519/impl/fp.go (property C14 "field arithmetic equals
 // the mathematics"): (*Fp).SetBytesWide, SetBytes and Bytes, p = 2^255 - 19.
@@ -371,6 +375,645 @@ func H_ed25519fp_wide_shrunk_k8() {
 	data := verifShrunk64(8)
 	verifReach("ed25519fp_wide_shrunk_k8")
 	verifWideCheck(data)
+}
+
+// ---- the same obligation in radix 2^51 (formulation the solver can discharge) ----
+//
+// Bit decomposition (an identity of integers, asserted as "wide51.decomposition"):
+//	X = lo + 2^255*b255 + 2^256*hi + 2^511*b511,  lo, hi < 2^255
+// Concrete congruences (H_ed25519fp_constants): 2^255 = p + 19, 2^256 = 2p + 38,
+// 2^511 = (2^256 + 38)*p + 722. Hence X = S (mod p) for
+//	S = lo + 19*b255 + 38*hi + 722*b511          (S < 40*2^255)
+// and "bytes(out) = X mod p" is: bytes(out) < p and bytes(out) + k*p == S for some k. The
+// witness is k = floor(S / 2^255) + [S mod 2^255 + 19*floor(S / 2^255) >= p]. Both sides of the
+// identity are column vectors in radix 2^51 (5*51 = 255, so lo and hi are exactly five columns
+// each); they are compared after the same carry propagation verifNorm51.
+
+const verifMask51 = uint64(1)<<51 - 1
+
+// verifBits returns bits [off, off+n) of the little-endian limb vector x (n <= 64, zero beyond).
+func verifBits(x []uint64, off, n int) uint64 {
+	i, sh := off/64, uint(off%64)
+	var v uint64
+	if i < len(x) {
+		v = x[i] >> sh
+	}
+	if sh != 0 && i+1 < len(x) {
+		v |= x[i+1] << (64 - sh)
+	}
+	if n < 64 {
+		v &= uint64(1)<<uint(n) - 1
+	}
+	return v
+}
+
+// verifNorm51 propagates carries: the integer sum(c[i]*2^(51i)) as five 51-bit digits and the rest.
+func verifNorm51(c [5]uint64) (out [6]uint64) {
+	var carry uint64
+	for i := 0; i < 5; i++ {
+		t := c[i] + carry // columns are < 2^60: no overflow
+		out[i] = t & verifMask51
+		carry = t >> 51
+	}
+	out[5] = carry
+	return out
+}
+
+func verifWideCheck51(data []byte) {
+	data0 := append([]byte{}, data...)
+	var f Fp
+	ok := f.SetBytesWide(data)
+	got := verifLimbs4(f.Bytes())
+	x8 := verifLimbs8(data0)
+	x := x8[:]
+	verifAssert("wide51.ok", ok == 1)
+	verifAssert("wide51.canonical_lt_p", verifLess4(got, verifFpP()) == 1)
+
+	var lo, hi, r [5]uint64
+	for i := 0; i < 5; i++ {
+		lo[i] = verifBits(x, 51*i, 51)
+		hi[i] = verifBits(x, 256+51*i, 51)
+		r[i] = verifBits(got[:], 51*i, 51)
+	}
+	b255, b511 := verifBits(x, 255, 1), verifBits(x, 511, 1)
+	// the decomposition covers every input bit exactly once
+	var y [8]uint64
+	for i := 0; i < 5; i++ {
+		for _, part := range []struct {
+			v   uint64
+			off int
+		}{{lo[i], 51 * i}, {hi[i], 256 + 51*i}} {
+			j, sh := part.off/64, uint(part.off%64)
+			y[j] |= part.v << sh
+			if sh > 13 {
+				y[j+1] |= part.v >> (64 - sh)
+			}
+		}
+	}
+	y[3] |= b255 << 63
+	y[7] |= b511 << 63
+	verifAssert("wide51.decomposition", y == x8)
+	verifAssert("wide51.got_is_4_limbs_of_255_bits", got[3]>>63 == 0)
+
+	// S as columns
+	var s [5]uint64
+	s[0] = lo[0] + 19*b255 + 38*hi[0] + 722*b511
+	for i := 1; i < 5; i++ {
+		s[i] = lo[i] + 38*hi[i]
+	}
+	ns := verifNorm51(s)
+	k1 := ns[5]
+	nt := verifNorm51([5]uint64{ns[0] + 19*k1, ns[1], ns[2], ns[3], ns[4]})
+	allOnes := verifB2U(nt[1] == verifMask51) & verifB2U(nt[2] == verifMask51) & verifB2U(nt[3] == verifMask51) & verifB2U(nt[4] == verifMask51)
+	ge := nt[5] | allOnes&verifB2U(nt[0] >= verifMask51-18)
+	k := k1 + ge
+	verifAssert("wide51.k_small", k <= 40 && ge <= 1)
+	// bytes(out) + k*p as columns (p = [2^51-19, 2^51-1, 2^51-1, 2^51-1, 2^51-1])
+	var a [5]uint64
+	a[0] = r[0] + k*(verifMask51-18)
+	for i := 1; i < 5; i++ {
+		a[i] = r[i] + k*verifMask51
+	}
+	verifAssert("wide51.out_plus_kp_eq_lo_19b255_38hi_722b511", verifNorm51(a) == ns)
+}
+
+// H_ed25519fp_wide51_64: ALL 64-byte inputs (512 symbolic bits).
+func H_ed25519fp_wide51_64() {
+	data := verifBytes(64)
+	verifReach("ed25519fp_wide51_64")
+	verifWideCheck51(data)
+}
+
+// H_ed25519fp_wide51_short: lengths 0, 1, 31, 32, 33, 63.
+func H_ed25519fp_wide51_short() {
+	lens := []int{0, 1, 31, 32, 33, 63}
+	data := verifBytes(lens[verifLen(0, 5)])
+	verifReach("ed25519fp_wide51_short")
+	verifWideCheck51(data)
+}
+
+func H_ed25519fp_wide51_shrunk_k1() {
+	data := verifShrunk64(1)
+	verifReach("ed25519fp_wide51_shrunk_k1")
+	verifWideCheck51(data)
+}
+
+// ---- full-width lemmas about the generated primitives SetBytesWide is made of ----
+//
+// eval z = z[0] + z[1]*2^51 + ... + z[4]*2^204 (fiat's definition). "Tight" = every limb
+// <= 2^51 (fiat's tight bound 0x8000000000000). Each lemma holds for ALL tight inputs and is an
+// identity of integers, checked column-wise in radix 2^51 after carry propagation:
+//	eval(out) + k*p == <exact integer result>,   k given explicitly,
+// together with "out is tight" (so the lemmas chain). SetBytesWide is the composition
+//	lo  = FromBytes(lo')                          eval = lo'
+//	hi  = CarryMul(FromBytes(hi'), 38)            eval = 38*hi' - k1*p
+//	lo2 = CarryAdd(lo, Select(b255, 0, 19))       eval = lo' + 19*b255 - k2*p
+//	hi2 = CarryAdd(hi, Select(b511, 0, 722))      eval = 38*hi' + 722*b511 - (k1+k3)*p
+//	out = CarryAdd(lo2, hi2)                      eval = S - (k1+k2+k3+k4)*p
+//	bytes = ToBytes(out)                          = eval(out) mod p, canonical.
+
+func verifTight() (f fiatFpTightFieldElement) {
+	for i := range f {
+		f[i] = verifU64()
+		verifAssume(f[i] <= 1<<51)
+	}
+	return f
+}
+
+func verifIsTight(f *fiatFpTightFieldElement) bool {
+	var bad uint64
+	for i := range f {
+		bad += verifB2U(f[i] > 1<<51)
+	}
+	return bad == 0
+}
+
+// verifColsKP returns the columns of z + k*p.
+func verifColsKP(z [5]uint64, k uint64) (a [5]uint64) {
+	a[0] = z[0] + k*(verifMask51-18)
+	for i := 1; i < 5; i++ {
+		a[i] = z[i] + k*verifMask51
+	}
+	return a
+}
+
+// H_ed25519fp_lemma_frombytes: for every 32-byte string with bit 255 clear the limbs are the
+// 51-bit slices of the little-endian integer (so eval = that integer, and every limb < 2^51).
+func H_ed25519fp_lemma_frombytes() {
+	data := verifBytes(32)
+	verifAssume(data[31]>>7 == 0)
+	verifReach("ed25519fp_lemma_frombytes")
+	var f Fp
+	ok := f.SetBytes(data)
+	x := verifLimbs4(data)
+	verifAssert("lemma.frombytes.ok", ok == 1)
+	for i := 0; i < 5; i++ {
+		verifAssert("lemma.frombytes.limb_is_51_bit_slice", f.v[i] == verifBits(x[:], 51*i, 51))
+	}
+}
+
+// H_ed25519fp_lemma_carrymul38: for every tight h, out = h * {38,0,0,0,0} (as SetBytesWide calls
+// Mul with SetUint64(2*19)) is tight and eval(out) + k*p == 38*eval(h), k = floor(38*eval(h)/2^255).
+func H_ed25519fp_lemma_carrymul38() {
+	h := verifTight()
+	verifReach("ed25519fp_lemma_carrymul38")
+	var x, c, out Fp
+	x.v = h
+	c.SetUint64(19 * 2)
+	verifAssert("lemma.carrymul38.constant_limbs", c.v == fiatFpTightFieldElement{38, 0, 0, 0, 0})
+	out.Mul(&x, &c)
+	var want [5]uint64
+	for i := range want {
+		want[i] = 38 * h[i] // < 2^57
+	}
+	nw := verifNorm51(want)
+	k := nw[5]
+	verifAssert("lemma.carrymul38.tight", verifIsTight(&out.v))
+	verifAssert("lemma.carrymul38.k_small", k <= 38)
+	verifAssert("lemma.carrymul38.eval_plus_kp_eq_38_eval", verifNorm51(verifColsKP(out.v, k)) == nw)
+	verifAssert("lemma.carrymul38.operand_untouched", x.v == h)
+}
+
+// H_ed25519fp_lemma_carryadd: for all tight a, b: out = a + b is tight and
+// eval(out) + k*p == eval(a) + eval(b), k = floor((eval a + eval b)/2^255) (0, 1 or 2).
+func H_ed25519fp_lemma_carryadd() {
+	a, b := verifTight(), verifTight()
+	verifReach("ed25519fp_lemma_carryadd")
+	var x, y, out Fp
+	x.v, y.v = a, b
+	out.Add(&x, &y)
+	var want [5]uint64
+	for i := range want {
+		want[i] = a[i] + b[i]
+	}
+	nw := verifNorm51(want)
+	k := nw[5]
+	verifAssert("lemma.carryadd.tight", verifIsTight(&out.v))
+	verifAssert("lemma.carryadd.k_small", k <= 2)
+	verifAssert("lemma.carryadd.eval_plus_kp_eq_sum", verifNorm51(verifColsKP(out.v, k)) == nw)
+	// aliasing as in SetBytesWide (lo.Add(&lo, &pLo))
+	x.Add(&x, &y)
+	verifAssert("lemma.carryadd.aliased_receiver_same_result", x.v == out.v)
+}
+
+// H_ed25519fp_lemma_select: Select(choice, z, nz) for choice in {0,1}, arbitrary limbs.
+func H_ed25519fp_lemma_select() {
+	var z, nz, out Fp
+	for i := 0; i < 5; i++ {
+		z.v[i], nz.v[i] = verifU64(), verifU64()
+	}
+	c := verifU64()
+	verifAssume(c <= 1)
+	verifReach("ed25519fp_lemma_select")
+	out.Select(ctChoice(c), &z, &nz)
+	for i := 0; i < 5; i++ {
+		verifAssert("lemma.select", out.v[i] == verifIteU64(c == 0, z.v[i], nz.v[i]))
+	}
+	// aliased receiver as in f.Select(ok, f, &out)
+	z0 := z.v
+	z.Select(ctChoice(c), &z, &nz)
+	for i := 0; i < 5; i++ {
+		verifAssert("lemma.select.aliased", z.v[i] == verifIteU64(c == 0, z0[i], nz.v[i]))
+	}
+}
+
+// H_ed25519fp_lemma_tobytes: for every tight f the 32 bytes R are canonical (R < p, bit 255
+// clear) and R + k*p == eval(f) with k = [eval(f) >= p] (eval(f) < 2p for tight f).
+func H_ed25519fp_lemma_tobytes() {
+	f := verifTight()
+	verifReach("ed25519fp_lemma_tobytes")
+	var x Fp
+	x.v = f
+	got := verifLimbs4(x.Bytes())
+	var r [5]uint64
+	for i := 0; i < 5; i++ {
+		r[i] = verifBits(got[:], 51*i, 51)
+	}
+	nf := verifNorm51([5]uint64(f))
+	allOnes := verifB2U(nf[1] == verifMask51) & verifB2U(nf[2] == verifMask51) & verifB2U(nf[3] == verifMask51) & verifB2U(nf[4] == verifMask51)
+	k := nf[5] | allOnes&verifB2U(nf[0] >= verifMask51-18)
+	verifAssert("lemma.tobytes.lt_p", verifLess4(got, verifFpP()) == 1 && got[3]>>63 == 0)
+	verifAssert("lemma.tobytes.k_is_0_or_1", k <= 1)
+	verifAssert("lemma.tobytes.R_plus_kp_eq_eval", verifNorm51(verifColsKP(r, k)) == nf)
+}
+
+// H_ed25519fp_lemma_MUSTFAIL: wrong twin (claims Mul by 38 multiplies by 37).
+func H_ed25519fp_lemma_MUSTFAIL() {
+	h := verifTight()
+	verifReach("ed25519fp_lemma_mustfail")
+	var x, c, out Fp
+	x.v = h
+	c.SetUint64(19 * 2)
+	out.Mul(&x, &c)
+	var want [5]uint64
+	for i := range want {
+		want[i] = 37 * h[i]
+	}
+	nw := verifNorm51(want)
+	verifAssert("lemma.carrymul38.wrong_37", verifNorm51(verifColsKP(out.v, nw[5])) == nw)
+}
+
+// ---- machine-checked composition: SetBytesWide over CONTRACTS of the primitives ----
+//
+// The single 512-bit query "real SetBytesWide == specification" is out of reach of the solvers
+// (see the report); every primitive alone is easy. So the proof has two layers, both checked by
+// the engine at full width:
+//
+//  (1) lemmas (H_ed25519fp_cert_*): the REAL fiatFpCarryAdd / fiatFpCarryMul(., 38) /
+//      fiatFpToBytes / fiatFpFromBytes / fiatFpSelectznz satisfy the post-conditions below for ALL
+//      in-bounds inputs;
+//  (2) composition (H_ed25519fp_wide_composed_*): the REAL bodies of SetBytesWide and Bytes are
+//      executed on ALL 64-byte inputs with those five primitives replaced by contracts that
+//      assert the pre-conditions and return FRESH values constrained only by the same
+//      post-conditions; the result R must satisfy R < p and R + K*p == S (integers),
+//      S = lo + 19*b255 + 38*hi + 722*b511.
+//
+// Post-conditions are integer identities "eval(out) + k*p == exact result" in CERTIFICATE form:
+// columns A (left side) and B (right side) in radix 2^51 and explicit signed carries c with
+//	A[i] + c[i-1] == B[i] + 2^51*c[i]   (i = 0..4, c[-1] = 0),   c[4] == 0,   |c[i]| <= 2^12
+// (verifCertHolds). All columns are < 2^59 and carries are tiny, so these 64-bit equations do not
+// wrap and are equations of integers; multiplying column i by 2^(51 i) and adding gives
+// sum(A) == sum(B). Certificates of successive steps ADD column-wise, which is word-level linear
+// arithmetic the solver normalises, whereas re-deriving carries bit by bit is what makes the
+// monolithic query intractable. The contracts are active only while the ghost variable
+// verifUseContracts is set, so every other harness of this directory runs the real primitives.
+
+var verifUseContracts bool
+
+// ghost record of the contracts' certificates, in call order
+var verifGhostN int
+var verifGhostK [8]uint64
+var verifGhostC [8][5]uint64
+
+const verifCarryBound = uint64(1) << 12
+
+// verifCertHolds: the certificate equations with carries c (two's complement), |c[i]| <= bound.
+func verifCertHolds(a, b, c [5]uint64, bound uint64) bool {
+	var bad uint64
+	var prev uint64
+	for i := 0; i < 5; i++ {
+		bad += verifB2U(a[i]+prev != b[i]+c[i]<<51)
+		bad += verifB2U(c[i]+bound > 2*bound) // -bound <= c[i] <= bound
+		prev = c[i]
+	}
+	bad += verifB2U(c[4] != 0)
+	return bad == 0
+}
+
+// verifCertWitness computes the carries that make the certificate hold, if any do: the
+// difference of the carry chains of the two carry propagations (if sum(A) == sum(B), both
+// propagate to the same digits d: A[i] + ca[i-1] == d[i] + 2^51*ca[i], likewise for B).
+func verifCertWitness(a, b [5]uint64) (c [5]uint64) {
+	var ca, cb uint64
+	for i := 0; i < 5; i++ {
+		ca = (a[i] + ca) >> 51
+		cb = (b[i] + cb) >> 51
+		c[i] = ca - cb
+	}
+	return c
+}
+
+func verifTightArr(f *[5]uint64) bool {
+	var bad uint64
+	for i := range f {
+		bad += verifB2U(f[i] > 1<<51)
+	}
+	return bad == 0
+}
+
+func verifColSum(a, b [5]uint64) (c [5]uint64) {
+	for i := range c {
+		c[i] = a[i] + b[i]
+	}
+	return c
+}
+
+func verifColTimes38(a [5]uint64) (c [5]uint64) {
+	for i := range c {
+		c[i] = 38 * a[i]
+	}
+	return c
+}
+
+func verifDigits(r [4]uint64) (d [5]uint64) {
+	for i := range d {
+		d[i] = verifBits(r[:], 51*i, 51)
+	}
+	return d
+}
+
+// post-conditions, shared by the lemmas (asserted of the real code, with computed witnesses) and
+// by the contracts (assumed of fresh outputs and fresh carries)
+
+// CarryAdd: out tight, eval(out) + k*p == eval(a) + eval(b), k = floor((eval a + eval b)/2^255).
+func verifPostCarryAdd(a, b, out [5]uint64, c [5]uint64) (k uint64, ok bool) {
+	want := verifColSum(a, b)
+	k = verifNorm51(want)[5]
+	return k, verifTightArr(&out) && verifCertHolds(verifColsKP(out, k), want, c, verifCarryBound)
+}
+
+// CarryMul by {38,0,0,0,0}: out tight, eval(out) + k*p == 38*eval(h), k = floor(38*eval(h)/2^255).
+func verifPostCarryMul38(h, out [5]uint64, c [5]uint64) (k uint64, ok bool) {
+	want := verifColTimes38(h)
+	k = verifNorm51(want)[5]
+	return k, verifTightArr(&out) && verifCertHolds(verifColsKP(out, k), want, c, verifCarryBound)
+}
+
+// ToBytes: R < p (bit 255 clear), R + k*p == eval(f), k = [eval(f) >= p].
+func verifPostToBytes(f [5]uint64, out [32]uint8, c [5]uint64) (k uint64, ok bool) {
+	r := verifLimbs4(out[:])
+	nf := verifNorm51(f)
+	allOnes := verifB2U(nf[1] == verifMask51) & verifB2U(nf[2] == verifMask51) & verifB2U(nf[3] == verifMask51) & verifB2U(nf[4] == verifMask51)
+	k = nf[5] | allOnes&verifB2U(nf[0] >= verifMask51-18)
+	return k, verifLess4(r, verifFpP()) == 1 && r[3]>>63 == 0 &&
+		verifCertHolds(verifColsKP(verifDigits(r), k), f, c, verifCarryBound)
+}
+
+func verifPostFromBytes(in [32]uint8, out [5]uint64) bool {
+	return out == verifDigits(verifLimbs4(in[:]))
+}
+
+func verifPostSelect(c uint64, z, nz, out [5]uint64) bool {
+	var bad uint64
+	for i := 0; i < 5; i++ {
+		bad += verifB2U(out[i] != verifIteU64(c == 0, z[i], nz[i]))
+	}
+	return bad == 0
+}
+
+func verifFresh5() (x [5]uint64) {
+	for i := range x {
+		x[i] = verifU64()
+	}
+	return x
+}
+
+func verifGhostPush(k uint64, c [5]uint64) {
+	verifGhostK[verifGhostN] = k
+	verifGhostC[verifGhostN] = c
+	verifGhostN++
+}
+
+// contracts
+func verifCtrCarryAdd(out1 *fiatFpTightFieldElement, arg1 *fiatFpTightFieldElement, arg2 *fiatFpTightFieldElement) {
+	if !verifUseContracts {
+		fiatFpCarryAdd(out1, arg1, arg2)
+		return
+	}
+	a, b := [5]uint64(*arg1), [5]uint64(*arg2)
+	verifAssert("contract.carryadd.pre_tight", verifTightArr(&a) && verifTightArr(&b))
+	out, c := verifFresh5(), verifFresh5()
+	k, ok := verifPostCarryAdd(a, b, out, c)
+	verifAssume(ok)
+	verifGhostPush(k, c)
+	*out1 = out
+}
+
+func verifCtrCarryMul(out1 *fiatFpTightFieldElement, arg1 *fiatFpLooseFieldElement, arg2 *fiatFpLooseFieldElement) {
+	if !verifUseContracts {
+		fiatFpCarryMul(out1, arg1, arg2)
+		return
+	}
+	h, m := [5]uint64(*arg1), [5]uint64(*arg2)
+	verifAssert("contract.carrymul38.pre", verifTightArr(&h) && m == [5]uint64{38, 0, 0, 0, 0})
+	out, c := verifFresh5(), verifFresh5()
+	k, ok := verifPostCarryMul38(h, out, c)
+	verifAssume(ok)
+	verifGhostPush(k, c)
+	*out1 = out
+}
+
+func verifCtrToBytes(out1 *[32]uint8, arg1 *fiatFpTightFieldElement) {
+	if !verifUseContracts {
+		fiatFpToBytes(out1, arg1)
+		return
+	}
+	f := [5]uint64(*arg1)
+	verifAssert("contract.tobytes.pre_tight", verifTightArr(&f))
+	var out [32]uint8
+	copy(out[:], verifBytes(32))
+	c := verifFresh5()
+	k, ok := verifPostToBytes(f, out, c)
+	verifAssume(ok)
+	verifGhostPush(k, c)
+	*out1 = out
+}
+
+func verifCtrFromBytes(out1 *fiatFpTightFieldElement, arg1 *[32]uint8) {
+	if !verifUseContracts {
+		fiatFpFromBytes(out1, arg1)
+		return
+	}
+	in := *arg1
+	verifAssert("contract.frombytes.pre_bit255_clear", in[31]>>7 == 0)
+	*out1 = verifDigits(verifLimbs4(in[:])) // the post-condition determines the output
+}
+
+func verifCtrSelect(out1 *[5]uint64, arg1 fiatFpUint1, arg2 *[5]uint64, arg3 *[5]uint64) {
+	if !verifUseContracts {
+		fiatFpSelectznz(out1, arg1, arg2, arg3)
+		return
+	}
+	verifAssert("contract.select.pre_bit", arg1 <= 1)
+	z, nz := *arg2, *arg3
+	for i := 0; i < 5; i++ {
+		out1[i] = verifIteU64(arg1 == 0, z[i], nz[i])
+	}
+}
+
+func verifReplacements() map[string]any {
+	const pk = "github.com/bronlabs/bron-crypto/pkg/base/curves/edwards25519/impl."
+	return map[string]any{
+		pk + "fiatFpCarryAdd":  verifCtrCarryAdd,
+		pk + "fiatFpCarryMul":  verifCtrCarryMul,
+		pk + "fiatFpToBytes":   verifCtrToBytes,
+		pk + "fiatFpFromBytes": verifCtrFromBytes,
+		pk + "fiatFpSelectznz": verifCtrSelect,
+	}
+}
+
+// lemmas: the real primitives satisfy the post-conditions (carries = computed witnesses), for
+// all in-bounds inputs
+func H_ed25519fp_cert_carryadd() {
+	a, b := verifTight(), verifTight()
+	verifReach("ed25519fp_cert_carryadd")
+	var out fiatFpTightFieldElement
+	fiatFpCarryAdd(&out, &a, &b)
+	k := verifNorm51(verifColSum(a, b))[5]
+	_, ok := verifPostCarryAdd(a, b, out, verifCertWitness(verifColsKP(out, k), verifColSum(a, b)))
+	verifAssert("cert.carryadd", ok)
+	x := a
+	fiatFpCarryAdd(&x, &x, &b) // aliased as in SetBytesWide
+	verifAssert("cert.carryadd.aliased", x == out)
+}
+
+func H_ed25519fp_cert_carrymul38() {
+	h := verifTight()
+	verifReach("ed25519fp_cert_carrymul38")
+	m := fiatFpLooseFieldElement{38, 0, 0, 0, 0}
+	var out fiatFpTightFieldElement
+	fiatFpCarryMul(&out, (*fiatFpLooseFieldElement)(&h), &m)
+	k := verifNorm51(verifColTimes38(h))[5]
+	_, ok := verifPostCarryMul38(h, out, verifCertWitness(verifColsKP(out, k), verifColTimes38(h)))
+	verifAssert("cert.carrymul38", ok)
+	x := h
+	fiatFpCarryMul(&x, (*fiatFpLooseFieldElement)(&x), &m)
+	verifAssert("cert.carrymul38.aliased", x == out)
+}
+
+func H_ed25519fp_cert_tobytes() {
+	f := verifTight()
+	verifReach("ed25519fp_cert_tobytes")
+	var out [32]uint8
+	fiatFpToBytes(&out, &f)
+	k0, _ := verifPostToBytes(f, out, [5]uint64{})
+	_, ok := verifPostToBytes(f, out, verifCertWitness(verifColsKP(verifDigits(verifLimbs4(out[:])), k0), f))
+	verifAssert("cert.tobytes", ok)
+}
+
+func H_ed25519fp_cert_frombytes_select() {
+	var in [32]uint8
+	copy(in[:], verifBytes(32))
+	verifAssume(in[31]>>7 == 0)
+	z, nz := verifFresh5(), verifFresh5()
+	c := verifU64()
+	verifAssume(c <= 1)
+	verifReach("ed25519fp_cert_frombytes_select")
+	var out fiatFpTightFieldElement
+	fiatFpFromBytes(&out, &in)
+	verifAssert("cert.frombytes", verifPostFromBytes(in, out))
+	var sel [5]uint64
+	fiatFpSelectznz(&sel, fiatFpUint1(c), &z, &nz)
+	verifAssert("cert.select", verifPostSelect(c, z, nz, sel))
+}
+
+// verifWideComposed: SetBytesWide + Bytes over the contracts; the final certificate is the
+// column-wise sum of the five recorded ones.
+func verifWideComposed(data []byte) {
+	data0 := append([]byte{}, data...)
+	verifUseContracts = true
+	var f Fp
+	ok := f.SetBytesWide(data)
+	got := verifLimbs4(f.Bytes())
+	verifUseContracts = false
+	verifAssert("composed.ok", ok == 1)
+	// contracts entered: CarryMul, CarryAdd x3, ToBytes
+	verifAssert("composed.five_certificates", verifGhostN == 5)
+	if verifGhostN != 5 {
+		return
+	}
+	var kSum uint64
+	var cSum [5]uint64
+	for j := 0; j < 5; j++ {
+		kSum += verifGhostK[j]
+		for i := 0; i < 5; i++ {
+			cSum[i] += verifGhostC[j][i]
+		}
+	}
+	x8 := verifLimbs8(data0)
+	x := x8[:]
+	var s [5]uint64
+	for i := 0; i < 5; i++ {
+		s[i] = verifBits(x, 51*i, 51) + 38*verifBits(x, 256+51*i, 51)
+	}
+	s[0] += 19*verifBits(x, 255, 1) + 722*verifBits(x, 511, 1)
+	verifAssert("composed.lt_p", verifLess4(got, verifFpP()) == 1)
+	verifAssert("composed.K_small", kSum <= 64)
+	verifAssert("composed.bytes_plus_Kp_eq_lo_19b255_38hi_722b511",
+		verifCertHolds(verifColsKP(verifDigits(got), kSum), s, cSum, 5*verifCarryBound))
+	same := uint64(0)
+	for i := range data0 {
+		same += verifB2U(data[i] != data0[i])
+	}
+	verifAssert("composed.input_untouched", same == 0)
+}
+
+// H_ed25519fp_wide_composed_64: ALL 64-byte inputs (512 symbolic bits).
+func H_ed25519fp_wide_composed_64() {
+	data := verifBytes(64)
+	verifReach("ed25519fp_wide_composed_64")
+	verifWideComposed(data)
+}
+
+// H_ed25519fp_wide_composed_short: lengths 0, 1, 31, 32, 33, 63.
+func H_ed25519fp_wide_composed_short() {
+	lens := []int{0, 1, 31, 32, 33, 63}
+	data := verifBytes(lens[verifLen(0, 5)])
+	verifReach("ed25519fp_wide_composed_short")
+	verifWideComposed(data)
+}
+
+// H_ed25519fp_cert_MUSTFAIL: wrong twin of a lemma (certificate for weight 37 instead of 38),
+// real primitives.
+func H_ed25519fp_cert_MUSTFAIL() {
+	h := verifTight()
+	verifReach("ed25519fp_cert_mustfail")
+	m := fiatFpLooseFieldElement{38, 0, 0, 0, 0}
+	var out fiatFpTightFieldElement
+	fiatFpCarryMul(&out, (*fiatFpLooseFieldElement)(&h), &m)
+	var want [5]uint64
+	for i := range want {
+		want[i] = 37 * h[i]
+	}
+	k := verifNorm51(want)[5]
+	a := verifColsKP(out, k)
+	verifAssert("cert.wrong_weight_37", verifCertHolds(a, want, verifCertWitness(a, want), verifCarryBound))
+}
+
+// H_ed25519fp_wide_composed_MUSTFAIL: wrong twin of the end-to-end statement (S with weight 37
+// for the high half), REAL primitives, on the two-parameter family X = u + 2^256*v (u, v < 2^32)
+// where the monolithic query is tractable: a control must replay natively.
+func H_ed25519fp_wide_composed_MUSTFAIL() {
+	data := make([]byte, 64)
+	copy(data[0:4], verifBytes(4))
+	copy(data[32:36], verifBytes(4))
+	verifReach("ed25519fp_wide_composed_mustfail")
+	var f Fp
+	f.SetBytesWide(data)
+	got := verifLimbs4(f.Bytes())
+	u := uint64(binary.LittleEndian.Uint32(data[0:4]))
+	v := uint64(binary.LittleEndian.Uint32(data[32:36]))
+	verifAssert("composed.wrong_weight_37", got == [4]uint64{u + 37*v, 0, 0, 0})
 }
 
 // ---- controls ----
